@@ -48,7 +48,7 @@ structure NodeGood (kf : KF) (cut : Option Nat) (p : Produced) : Prop where
   canon : kf.canon = true → ∀ i (h : i < p.node.items.length),
     p.node.items[i].slen = if i < p.node.pc then kf.sl p.node.items[i].key - p.node.pl else kf.sl p.node.items[i].key
 
-/-- with the repair of F20 a produced node is a well-formed node again: it can be the base of a later stage -/
+/-- with the repair of F22 a produced node is a well-formed node again: it can be the base of a later stage -/
 theorem NodeGood.nodeOK {kf : KF} {cut : Option Nat} {p : Produced} (h : NodeGood kf cut p) (hc : kf.canon = true) :
     NodeOK kf p.node :=
   ⟨h.ne, h.sorted, h.below, h.pc.1, h.pc.2, h.pl_le, h.share, h.canon hc⟩
